@@ -185,6 +185,7 @@ void
 _dispatch_sema4_signal(_dispatch_sema4_t *sema, long count)
 {
 	do {
+		DISPATCH_VERIF_PROBE("sema4_post", sema, count, 0);
 		int ret = sem_post(sema);
 		DISPATCH_SEMAPHORE_VERIFY_RET(ret);
 	} while (--count);
@@ -197,6 +198,7 @@ _dispatch_sema4_wait(_dispatch_sema4_t *sema)
 	do {
 		ret = sem_wait(sema);
 	} while (ret == -1 && errno == EINTR);
+	DISPATCH_VERIF_PROBE("sema4_wait_ret", sema, ret, 0);
 	DISPATCH_SEMAPHORE_VERIFY_RET(ret);
 }
 
@@ -213,6 +215,8 @@ _dispatch_sema4_timedwait(_dispatch_sema4_t *sema, dispatch_time_t timeout)
 		ret = sem_timedwait(sema, &_timeout);
 	} while (unlikely(ret == -1 && errno == EINTR));
 
+	DISPATCH_VERIF_PROBE("sema4_timedwait_ret", sema,
+			(ret == -1 && errno == ETIMEDOUT), 0);
 	if (ret == -1 && errno == ETIMEDOUT) {
 		return true;
 	}
@@ -443,12 +447,19 @@ static int
 _dispatch_futex_wait(uint32_t *uaddr, uint32_t val,
 		const struct timespec *timeout, int opflags)
 {
+#if defined(DISPATCH_VERIF) && DISPATCH_VERIF
+	DISPATCH_VERIF_PROBE("futex_wait", uaddr, val, timeout != NULL);
+	int _dv_rc = _futex_blocking_op(uaddr, FUTEX_WAIT, val, timeout, opflags);
+	DISPATCH_VERIF_PROBE("futex_wait_ret", uaddr, _dv_rc, 0);
+	return _dv_rc;
+#endif
 	return _futex_blocking_op(uaddr, FUTEX_WAIT, val, timeout, opflags);
 }
 
 static void
 _dispatch_futex_wake(uint32_t *uaddr, int wake, int opflags)
 {
+	DISPATCH_VERIF_PROBE("futex_wake", uaddr, wake, 0);
 	int rc = _dispatch_futex(uaddr, FUTEX_WAKE, (uint32_t)wake, NULL, NULL, 0,
 			opflags);
 	if (rc >= 0 || errno == ENOENT) return;
